@@ -20,6 +20,8 @@ type markovCase struct {
 	Model string   `json:"model"`
 	P     []string `json:"p"`
 	Pi    []string `json:"pi"`
+	// Fresh: a model object straight from its constructor (documented default parameters), never initialised
+	Fresh bool `json:"fresh"`
 }
 type markovEvent struct {
 	ID    string       `json:"id"`
@@ -142,7 +144,12 @@ func runMarkov(env *Env, id string, c markovCase) {
 				mm = mdna.NewK2PModel()
 				dnaPool["k2p"] = mm
 			}
-			mm.InitModel(p[0])
+			if c.Fresh {
+				mm = mdna.NewK2PModel() // kappa = 1 by default (p holds that value for the specification)
+				ev.Reuse = false
+			} else {
+				mm.InitModel(p[0])
+			}
 			m, analytical = mm, true
 		case "f81":
 			mm, ok := dnaPool["f81"].(*mdna.F81Model)
